@@ -14,12 +14,13 @@
      - FRAME IDENTITY: the entry ((c,x,c'),(s,y,s')) of the micro matrix that sle.__construct_micro_matrix_als hands to the
        solver equals  sum_{r,r'} Kernel_left[s,r,c] * A_i[r,x,y,r'] * RightProd[s',r',c'],  i.e. micro_op = P^H A P with
        P the frame spanned by the solution cores left and right of position i (every order, position, dimension, rank).
+     - the same frame identity for the two-site micro matrix of MALS (and of two-site TDVP): sum over r, rm, r' of
+       Kernel_left * A_i[r,x1,y1,rm] * A_{i+1}[rm,x2,y2,r'] * RightProd.
    NOT proved here (model + oracle-tape correspondence + side check only): the composition of these facts over whole
-   sweeps (monotone energy from sweep to sweep, fixed point, exactness at maximal ranks), the right-hand-side stacks and
-   the two-site (MALS) micro matrix.  Known findings F16/F16b: MALS with an active max_rank is not monotone. *)
+   sweeps (monotone energy from sweep to sweep, fixed point, exactness at maximal ranks) and the right-hand-side stacks.  Known findings F16/F16b: MALS with an active max_rank is not monotone. *)
 From Coq Require Import ZArith List Lia Arith.
 Import ListNotations.
-Require Import Ring Sums Matrix Core Chain TensordotProof Env EnvProof Galerkin FrameProof.
+Require Import Ring Sums Matrix Core Chain TensordotProof Env EnvProof Galerkin FrameProof FrameProof2.
 Open Scope cr_scope.
 
 Theorem C07_galerkin_descent (R : cring) (N : nat) (A : nat -> nat -> R)
@@ -74,3 +75,15 @@ Theorem C07_frame (R : cring) (Xp Ap Xs As : list (core R)) (A : core R) fx c x 
   sum (rl A) (fun r => sum (rr A) (fun r' => Kernel Xp Ap 0%nat 0%nat 0%nat s r c * g A r x y r' * RightProd Xs As s' r' c')).
 Proof. exact (frame_als Xp Ap Xs As A fx c x c' s y s'). Qed.
 Print Assumptions C07_frame.
+
+Theorem C07_frame_mals (R : cring) (Xp Ap Xs As : list (core R)) (A1 A2 : core R) fx c x1 x2 c' s y1 y2 s' :
+  length Ap = length Xp -> linked Xp fx -> linked Ap (rl A1) -> rl_of Xp fx = 1%nat -> rl_of Ap (rl A1) = 1%nat ->
+  length As = length Xs -> linked Xs 1%nat -> linked As 1%nat -> rl_of As 1%nat = rr A2 ->
+  (c < fx)%nat -> (s < fx)%nat -> (c' < rl_of Xs 1)%nat -> (s' < rl_of Xs 1)%nat ->
+  (x1 < md A1)%nat -> (y1 < nd A1)%nat -> (x2 < md A2)%nat -> (y2 < nd A2)%nat ->
+  snd (micro_op_mals (lstack_from one3 Xp Ap) (rstack Xs As) A1 A2 fx (rl_of Xs 1%nat))
+      (((c * md A1 + x1) * md A2 + x2) * rl_of Xs 1%nat + c')%nat (((s * nd A1 + y1) * nd A2 + y2) * rl_of Xs 1%nat + s')%nat =
+  sum (rl A1) (fun r => sum (rr A1) (fun rm => sum (rr A2) (fun r' =>
+    Kernel Xp Ap 0%nat 0%nat 0%nat s r c * g A1 r x1 y1 rm * g A2 rm x2 y2 r' * RightProd Xs As s' r' c'))).
+Proof. exact (frame_mals Xp Ap Xs As A1 A2 fx c x1 x2 c' s y1 y2 s'). Qed.
+Print Assumptions C07_frame_mals.
